@@ -27,7 +27,7 @@ def harnesses(tier):
             desc='d_string_%s from an arbitrary valid DString vs ideal string' % op))
     RM = 4 if tier == 'quick' else 6
     hs.append(dict(name='c19_replace', src='c19/replace.c', defs=dict(M=RM, A=2),
-                   units=[dict(src='repo:d_string.c', remove=['d_string_erase', 'd_string_insert'])],
+                   units=[dict(src='repo:d_string.c', remove=['d_string_erase', 'd_string_insert'], cflags=['-include', 'vh_libc.h'])],
                    unwind=RM * 2 + RM + 6, timeout=900 if tier == 'quick' else 3000, mem_gb=6,
                    bounds='content<=%d bytes, pattern 1..2 bytes, replacement 0..2 bytes, pos/len full 64-bit' % RM,
                    desc='d_string_replace_text_in_range loop bookkeeping vs ideal string (erase/insert = their ideal versions)'))
